@@ -29,6 +29,7 @@ class Sidecar:
         self.assigns = {}
         self.imports = {m: 'mir_eval.' + m for m in frontend.MODULES}
         self.contracts = []
+        self.views = {}
         self.lemmas = []
         for n in self.tree.body:
             if isinstance(n, ast.FunctionDef):
@@ -39,7 +40,13 @@ class Sidecar:
                 if deco is None:
                     self.functions[n.name] = n
                 elif deco.func.id in ('contract', 'assumed_contract'):
-                    self.contracts.append(Contract(self, n, deco))
+                    c = Contract(self, n, deco)
+                    if c.view:
+                        if not c.assumed:
+                            raise ValueError('view=True is only allowed on assumed contracts (%s)' % c.target)
+                        self.views[c.target] = c
+                    else:
+                        self.contracts.append(c)
                 else:
                     self.lemmas.append(Lemma(self, n, deco))
             elif isinstance(n, ast.Assign) and len(n.targets) == 1 and isinstance(n.targets[0], ast.Name):
@@ -64,10 +71,17 @@ class Contract:
         self.assumed = deco.func.id == 'assumed_contract'
         self.note = _kw(deco, 'note', '')
         self.shards = _kw(deco, 'shards', 1)
+        # view=True: an assumed, sidecar-local restatement of a callee's contract over opaque values (used only by the
+        # functions of this sidecar; the registry keeps the real contract of the target)
+        self.view = bool(_kw(deco, 'view', False))
         a = fd.args
         self.param_names = [x.arg for x in a.posonlyargs + a.args + a.kwonlyargs]
         self.param_kinds = {x.arg: kinds.parse_kind(x.annotation) for x in a.posonlyargs + a.args + a.kwonlyargs}
         self.result_kind = kinds.parse_kind(fd.returns) if fd.returns is not None else None
+        # without a result kind `result` is None at call sites (and None[k] is 0 in the total semantics of the specification language):
+        # such a contract can be verified against its function but must not be used by callers / lemmas
+        self.untyped_result = self.result_kind is None and any(isinstance(n, ast.Name) and n.id == 'result' for n in ast.walk(fd)) \
+            and not any(isinstance(n, ast.Call) and isinstance(n.func, ast.Name) and n.func.id == 'returns' for n in ast.walk(fd))
         self.body = frontend.docstring_stripped(fd)
         self.post_names = self._post_names()
 
@@ -125,6 +139,7 @@ class Registry:
 
 def spec_engine(sidecar, fd, qual, registry):
     eng = Engine(sidecar, fd, qual, registry)
+    eng.sidecar = sidecar
     eng.spec_mode = True
     eng.spec_funcs = {n: FnV('spec', n) for n in calls.SPEC}
     for n, f in sidecar.functions.items():
@@ -145,25 +160,53 @@ def eval_clauses(c, env, st, registry, phase):
     eng.clauses = []
     st2 = st.fork()
     st2.env = dict(env)
+    eng.base_pc_len = len(st2.pc)
     body = [s for s in c.body if (phase == 'post') or not c.mentions_post(s)]
     n = 0
+    last = None
     for st3, out in eng.ex_block(body, st2):
         n += 1
+        last = st3
         if out is not None and out[0] == 'raise':
             raise OutOfSubset('contract body of %s raised %s' % (c.target, out[1]))
-    if n != 1:
-        raise OutOfSubset('contract body of %s split into %d paths' % (c.target, n))
+    if n == 0:
+        raise OutOfSubset('contract body of %s has no feasible path' % c.target)
+    # an `if` of the contract body may split it: every clause holds under the branch facts it was stated under
+    # (clauses stated before the split carry an empty guard and appear once)
     out = []
     auto = {}
+    seen = set()
     for cl in eng.clauses:
+        g = [to_z3(x) for x in cl.pop('guard', [])]
+        key = (cl['kind'], cl.get('label'), cl.get('line'), tuple(x.get_id() for x in g), id(cl.get('cond')) if not g else None)
         if cl['kind'] == 'returns':
-            cl['heap'] = st3.heap
+            if n != 1:
+                raise OutOfSubset('returns() in a contract body that splits into %d paths' % n)
+            cl['heap'] = last.heap
+        if g:
+            guard = z3.And(*g) if len(g) > 1 else g[0]
+            if cl['kind'] in ('requires', 'ensures', 'define'):
+                cl['cond'] = z3.Implies(guard, to_z3(cl['cond']))
+            elif cl['kind'] == 'raises':
+                cl['cond'] = z3.And(guard, to_z3(cl['cond']))
+            elif cl['kind'] == 'hint':
+                cl['premise'] = z3.Implies(guard, to_z3(cl['premise']))
+                cl['conclusion'] = z3.Implies(guard, to_z3(cl['conclusion']))
         k = cl['kind']
         if cl.get('label') is None and k in ('requires', 'ensures'):
             auto[k] = auto.get(k, 0) + 1
             cl['label'] = '%s%d' % (k[0], auto[k])
         out.append(cl)
-    return out
+    # several `raises` of one class stated on different branches: the documented condition is their disjunction
+    merged, by_cls = [], {}
+    for cl in out:
+        if cl['kind'] == 'raises' and n > 1:
+            if cl['cls'] in by_cls:
+                by_cls[cl['cls']]['cond'] = or_(by_cls[cl['cls']]['cond'], cl['cond'])
+                continue
+            by_cls[cl['cls']] = cl
+        merged.append(cl)
+    return merged
 
 
 def fresh_result(c, st, record=None):
@@ -179,6 +222,8 @@ def apply_contract(eng, c, args, kwargs, st):
     if isinstance(env, Raised):
         yield env, st
         return
+    if getattr(c, 'untyped_result', False):
+        raise OutOfSubset('contract of %s speaks about `result` but declares no result kind: not usable at call sites' % c.target)
     eng.used_contracts.add(c.target)
     short = c.target
     pre = eval_clauses(c, env, st, eng.registry, 'pre')
@@ -214,7 +259,7 @@ def apply_contract(eng, c, args, kwargs, st):
     env2['result'] = res
     post = eval_clauses(c, env2, st, eng.registry, 'post')
     for cl in post:
-        if cl['kind'] == 'ensures':
+        if cl['kind'] in ('ensures', 'define'):
             st.assume(cl['cond'])
     yield res, st
 
@@ -268,6 +313,8 @@ class FunctionReport:
 def verify_function(c, registry, feas_timeout=300):
     """generate all obligations for repository function `c.target` against contract `c`"""
     rep = FunctionReport(c.target)
+    from . import npmodel as _npm
+    del _npm.EXT_RECORDS[:]
     try:
         mod, fd = frontend.function(c.target)
     except KeyError as ex:
@@ -279,6 +326,7 @@ def verify_function(c, registry, feas_timeout=300):
         rep.status, rep.detail = 'unbound', 'contract parameters %s are not parameters of %s' % (missing, c.target)
         return rep
     eng = Engine(mod, fd, c.target, registry, feas_timeout=feas_timeout)
+    eng.sidecar = c.sidecar           # sidecar-local view contracts of callees
     eng.default_props = c.props
     st = St()
     env = {}
@@ -341,6 +389,8 @@ def verify_function(c, registry, feas_timeout=300):
                 post = eval_clauses(c, env2, st_c, registry, 'post')
                 extra = []          # conclusions of hints (lemma applications) proved so far on this path
                 for cl in post:
+                    if cl['kind'] == 'define':
+                        extra.append(to_z3(cl['cond']))       # defining facts of a spec term (conservative: the symbol is fresh)
                     if cl['kind'] == 'hint':
                         ob = Obligation('%s#hint:%s' % (c.target, cl['label']), 'post', 'hint:' + cl['label'], list(st1.pc) + list(extra),
                                         cl['premise'], c.props, cl['line'], note='premise of a lemma application')
@@ -387,6 +437,8 @@ def verify_function(c, registry, feas_timeout=300):
 def verify_lemma(lem, registry, feas_timeout=300):
     """a lemma is a ghost client: executed like a function; `requires` are assumed, `ensures` are proved"""
     rep = FunctionReport('lemma.' + lem.name)
+    from . import npmodel as _npm
+    del _npm.EXT_RECORDS[:]
     eng = spec_engine(lem.sidecar, lem.fd, 'lemma.' + lem.name, registry)
     eng.spec_mode = False
     eng.lemma_mode = True
